@@ -121,10 +121,22 @@ def shard(ctx):
                 fl[stray] = "not: [a, parameter, file\n"
                 ctx.res.counts["stray_files_in_param_dir"] += 1
 
+        # an --input-parameters argument that exists but contributes nothing (a directory with only notes in it, a file of another kind),
+        # anywhere in the list: the parameters of the other arguments still count
+        barren = rng.choice([None, None, "barren_notes", "barren_notes/README.txt", "barren_nested"]) if layout != "directory" else None
+        if barren:
+            fl["barren_notes/README.txt"] = "parameters live elsewhere\n"
+            fl["barren_nested/deeper/notes.md"] = "# nothing\n"
+            ctx.res.counts["runs_with_barren_parameter_argument"] += 1
+
         def iargs_for(order):
             if layout == "directory":
                 return ["-i", "{S}/pdir"]
-            return [x for i in order for x in ("-i", "{S}/" + ipaths[i])]
+            ia = [x for i in order for x in ("-i", "{S}/" + ipaths[i])]
+            if barren:
+                pos_ = 2 * ((sum(order) + len(order) + len(barren)) % (len(order) + 1))
+                ia[pos_:pos_] = ["-i", "{S}/" + barren]
+            return ia
         if extra_data:
             D2 = dict(Dm)
             kk = rng.choice(list(D2))
